@@ -9,6 +9,7 @@ mod knative;
 mod progmc;
 mod fam_core;
 mod fam_fn;
+mod fam_match;
 
 use common::Args;
 
@@ -38,6 +39,15 @@ fn main() {
             &fam_fn::classify,
             None,
             "C02 families: every signature (0-2 required, 0-2 optional, variadic, captured, method) x argument counts 0..n+2 x six call spellings; structured (unpacking) arguments x 14 argument values; all statement sequences <= 3 (thorough 4) over a 13-statement capture alphabet at top level and inside a function; generator bodies <= 2 statements (thorough 3) x consumers (next x k, for+break, to_tuple, interleaved instances)",
+            &[],
+        ),
+        "progmc-match" => progmc::run_profile(
+            &args,
+            run::RunCfg::default(),
+            &fam_match::generate,
+            &fam_match::classify,
+            None,
+            "C03 families: 23 subject values x every single arm over 48 patterns x else/no else x 4 result uses; guards; all two-arm lists over a 16-pattern core (thorough: 48 x 16, and three arms); or-alternatives x guards; multi-subject rows; multi-assignment targets <= 3 over 5 target kinds x 17 right-hand sides and explicit value lists; for-argument lists x 10 sequences",
             &[],
         ),
         other => {
